@@ -190,6 +190,37 @@ func rootAlloc(v ssa.Value) *ssa.Alloc {
 	}
 }
 
+// readOnlyFreeVar: the captured variable is only loaded inside the closure (and inside
+// closures nested in it)
+func readOnlyFreeVar(fv *ssa.FreeVar, depth int) bool {
+	refs := fv.Referrers()
+	if refs == nil || depth > 3 {
+		return false
+	}
+	for _, r := range *refs {
+		switch x := r.(type) {
+		case *ssa.UnOp:
+			if x.Op != token.MUL {
+				return false
+			}
+		case *ssa.DebugRef:
+		case *ssa.MakeClosure:
+			cf, _ := x.Fn.(*ssa.Function)
+			if cf == nil {
+				return false
+			}
+			for bi, b := range x.Bindings {
+				if b == ssa.Value(fv) && (bi >= len(cf.FreeVars) || !readOnlyFreeVar(cf.FreeVars[bi], depth+1)) {
+					return false
+				}
+			}
+		default:
+			return false
+		}
+	}
+	return true
+}
+
 // computeLocalExact: a non-heap Alloc is tracked exactly when its address only flows into
 // FieldAddr / IndexAddr / Load / Store(addr) / DebugRef.
 func (c *Ctx) computeLocalExact() {
@@ -222,6 +253,17 @@ func (c *Ctx) computeLocalExact() {
 					return false
 				}
 			case *ssa.DebugRef:
+			case *ssa.MakeClosure:
+				// captured by a closure that only reads the variable
+				cf, _ := x.Fn.(*ssa.Function)
+				if cf == nil {
+					return false
+				}
+				for bi, b := range x.Bindings {
+					if b == v && (bi >= len(cf.FreeVars) || !readOnlyFreeVar(cf.FreeVars[bi], 0)) {
+						return false
+					}
+				}
 			default:
 				return false
 			}
@@ -230,7 +272,7 @@ func (c *Ctx) computeLocalExact() {
 	}
 	for _, b := range c.fn.Blocks {
 		for _, in := range b.Instrs {
-			if a, isA := in.(*ssa.Alloc); isA && !a.Heap {
+			if a, isA := in.(*ssa.Alloc); isA {
 				c.localExact[a] = ok(a)
 			}
 		}
@@ -445,7 +487,7 @@ func (c *Ctx) enterLoop(h *ssa.BasicBlock, mp []mergePred, mpIdx []int, r string
 		}
 	}
 	if havocAll {
-		c.havocHeap(st, nil)
+		c.havocHeap(st, c.isImmutableMap)
 	} else if nonLocalStore {
 		c.havocHeap(st, c.isGhostMap)
 	}
